@@ -1,10 +1,13 @@
 """C12 — each output row depends only on its own input item and the fitted model.
-Proof gate (Properties/C12.v: the map laws, the batching skeletons, the block/chunk index arithmetic) +
-correspondence of Model/K19_RowWise.v (blocks / chunks ranges, LZ per-string reset, BPE per-string encode) with
+Proof gate (Properties/C12.v: the map laws, the batching skeletons, the block/chunk index arithmetic, the chunk loop
+inside the LOT kernels) + correspondence of Model/K19_RowWise.v (blocks / chunks ranges, rows written by the kernels'
+chunk loop, LZ per-string rebuild from the base dictionary in phrase or hashed key space, BPE per-string encode) with
 the implementation + property oracle on EVERY estimator of the property's list: for a fitted estimator and a batch
 `items`, transform(items[idx]) must equal the rows idx of transform(items) for sub-batches (A, B with A+B = items),
-a permutation, a batch with a duplicated item, and for the whole batch under block / chunk sizes
-{1,2,3,n-1,n,n+1}; every run under NUMBA_NUM_THREADS 1 and 16."""
+a permutation, a batch with a duplicated item, singletons, and for the whole batch under block / chunk sizes
+{1,2,3,n-1,n,n+1}; long batches (more than one 256-row chunk in one block of the LOT kernels, several Sinkhorn chunks,
+~100 strings for the parallel BPE loop) against their halves, a permutation and block sizes around 256; under
+NUMBA_NUM_THREADS 1 and 16."""
 import math
 
 from . import common as C
@@ -26,21 +29,20 @@ def block_sizes(n):
     return sorted(set(b for b in (1, 2, 3, n - 1, n, n + 1) if b >= 1))
 
 
-def make_ops(rng, n, pinned=(), blocks=False, chunks=False):
-    """Sub-batches of range(n).  `pinned` indices are appended to every sub-batch that lacks them (generator
-    restrictions, see the TODOs)."""
-    def pin(idx):
-        return list(idx) + [p for p in pinned if p not in idx]
+def make_ops(rng, n, blocks=False, chunks=False, singles=()):
+    """Sub-batches of range(n): the whole batch, a split A + B, a permutation, a duplicated item, singletons (a random
+    one and every index of `singles` = the boundary items of the case), and the block / chunk size variants."""
     full = list(range(n))
     ops = [{"tag": "full", "idx": full}]
     k = rng.randint(1, n - 1)
-    ops += [{"tag": "A", "idx": pin(full[:k])}, {"tag": "B", "idx": pin(full[k:])}]
+    ops += [{"tag": "A", "idx": full[:k]}, {"tag": "B", "idx": full[k:]}]
     perm = full[:]
     rng.shuffle(perm)
     ops.append({"tag": "perm", "idx": perm})
     j, pos = rng.randrange(n), rng.randint(0, n)
-    ops.append({"tag": "dup", "idx": pin(full[:pos] + [j] + full[pos:])})
-    ops.append({"tag": "single", "idx": pin([rng.randrange(n)])})
+    ops.append({"tag": "dup", "idx": full[:pos] + [j] + full[pos:]})
+    for i in [rng.randrange(n)] + [i for i in singles][:3]:
+        ops.append({"tag": "single", "idx": [i]})
     if blocks or chunks:
         bs = block_sizes(n) if blocks else [None]
         cs = block_sizes(n) if chunks else [None]
@@ -54,6 +56,28 @@ def make_ops(rng, n, pinned=(), blocks=False, chunks=False):
     return ops
 
 
+def make_long_ops(rng, n, lot=False, chunk=None):
+    """A long batch: the whole batch against its two halves and a permutation.  For the LOT family (`lot`) the
+    whole batch is ONE block whose size keeps the kernels' chunk size at its floor of 256 rows
+    (chunk_size = max(256, block_size // 64)), so that a batch of more than 256 rows runs the chunk loop inside
+    lot_vectors_*_internal more than once; further variants: the default memory size (one huge chunk), blocks of
+    exactly 256 rows, of 257..n-1 rows (every block but the last has a partial second chunk), of n rows."""
+    full = list(range(n))
+    h = n // 2
+    perm = full[:]
+    rng.shuffle(perm)
+    b1 = rng.choice([n + 1, 1000, 4096, 16384]) if lot else None
+    ops = [{"tag": "full", "idx": full, "block": b1, "chunk": chunk},
+           {"tag": "A", "idx": full[:h], "block": b1, "chunk": chunk},
+           {"tag": "B", "idx": full[h:], "block": b1, "chunk": chunk},
+           {"tag": "perm", "idx": perm, "block": b1, "chunk": chunk}]
+    if lot:
+        for b in [None, 256, rng.randint(257, n - 1), n] if n > 257 else [None, 256, n]:
+            ops.append({"tag": "block", "idx": full, "block": b, "chunk": chunk})
+        ops.append({"tag": "block-perm", "idx": perm, "block": rng.choice([256, n - 1]), "chunk": chunk})
+    return ops
+
+
 # ------------------------------------------------------------------ generators (one per estimator)
 LET = "abcde"
 
@@ -62,30 +86,39 @@ def doc(rng, lo, hi, alphabet=LET):
     return [rng.choice(alphabet) for _ in range(rng.randint(lo, hi))]
 
 
+def boundary(items, pred):
+    return [i for i, x in enumerate(items) if pred(x)]
+
+
 def gen_ngram(rng):
     fit = [doc(rng, 0, 8) for _ in range(rng.randint(3, 6))] + [list(LET)]
     items = [doc(rng, 0, 7, LET + "z") for _ in range(rng.randint(3, 6))]
     if rng.random() < 0.5:
         items.append([])
-    # TODO widen after merge: mask_string is not exercised (D10 is being repaired elsewhere)
     p = {"ngram_size": rng.choice([1, 2, 3]), "ngram_behaviour": rng.choice(["exact", "subgrams"])}
+    if rng.random() < 0.5:
+        # unknown tokens become the mask token instead of being dropped
+        p["mask_string"] = rng.choice(["MASK", "a"])
+        p["nullify_mask"] = rng.random() < 0.5
+    if rng.random() < 0.3:
+        p["min_occurrences"] = 2                 # prunes the dictionary: training tokens unseen by the fitted model
     return {"est": "Ngram", "params": p, "data_kind": "tokens", "fit": fit, "items": items,
-            "ops": make_ops(rng, len(items))}
+            "ops": make_ops(rng, len(items), singles=boundary(items, lambda d: len(d) < p["ngram_size"]))}
 
 
 def gen_skipgram(rng):
     fit = [doc(rng, 2, 8) for _ in range(rng.randint(3, 5))]
-    # TODO widen after merge: transform infers the matrix shape from its input (D3), so every batch must contain the
-    # highest fitted column (the pair (t, t) of the largest token t) and must not end with an item without
-    # skip-grams: every sub-batch ends with the document "top" = all training tokens followed by t, t, and items
-    # have >= 2 tokens
-    tmax = max(t for d in fit for t in d)
-    top = [t for d in fit for t in d] + [tmax, tmax]
-    items = [doc(rng, 2, 7) for _ in range(rng.randint(3, 5))] + [top]
-    p = {"window_radius": rng.choice([1, 2, 3]), "kernel_function": rng.choice(["flat", "harmonic"])}
-    fit = fit + [top]
+    # any batch: items without skip-grams (empty, one token, only unknown tokens), batches that do not reach the
+    # highest fitted column, batches made of such items only (singletons)
+    items = [doc(rng, 0, 7, LET + "z") for _ in range(rng.randint(3, 5))]
+    items.append(rng.choice([[], [rng.choice(LET)], ["z", "z"]]))
+    rng.shuffle(items)
+    p = {"window_radius": rng.choice([1, 2, 3]), "kernel_function": rng.choice(["flat", "harmonic", "geometric"]),
+         "window_function": rng.choice(["fixed", "fixed", "variable"])}
+    if rng.random() < 0.3:
+        p["min_occurrences"] = 2
     return {"est": "Skipgram", "params": p, "data_kind": "tokens", "fit": fit, "items": items,
-            "ops": make_ops(rng, len(items), pinned=(len(items) - 1,))}
+            "ops": make_ops(rng, len(items), singles=boundary(items, lambda d: len([t for t in d if t != "z"]) < 2))}
 
 
 def rstring(rng, lo, hi, alphabet="abc"):
@@ -93,37 +126,70 @@ def rstring(rng, lo, hi, alphabet="abc"):
 
 
 def gen_lz(rng):
-    fit = [rstring(rng, 0, 12, rng.choice(["ab", "abc", "a", "abé"])) for _ in range(rng.randint(3, 6))]
-    # TODO widen after merge: items are drawn from the training strings so that no phrase is unseen at transform (D4)
-    items = [rng.choice(fit) for _ in range(rng.randint(3, 6))]
-    p = {"max_dict_size": rng.choice([2, 3, 5, 1 << 16]), "max_columns": rng.choice([None, None, 8, 64]),
-         "random_state": 0}
-    return {"est": "LZ", "params": p, "data_kind": "strings", "fit": fit, "items": items,
-            "ops": make_ops(rng, len(items))}
+    alpha = rng.choice(["ab", "abc", "ab", "a", "ab\u00e9"])
+    fit = [rstring(rng, 0, 12, alpha) for _ in range(rng.randint(3, 6))]
+    # any strings: unseen phrases, unseen characters (in the base dictionary or not: 'w' never is), empty and
+    # 1-character strings, training strings
+    wide = alpha + rng.choice(["", "z", "z", "z\u4e2d"])
+    items = [rng.choice(fit) if rng.random() < 0.25 else rstring(rng, 0, 12, wide) for _ in range(rng.randint(3, 5))]
+    items.append(rstring(rng, 1, 8, alpha + "w"))
+    items.append(rng.choice(["", rng.choice(wide), rng.choice(items)]))
+    rng.shuffle(items)
+    p = {"max_dict_size": rng.choice([2, 3, 5, 8, 1 << 16, 1 << 16, 1 << 16]), "max_columns": rng.choice([None, None, 8, 64]),
+         "random_state": rng.choice([0, 1, 7])}
+    c = {"est": "LZ", "params": p, "data_kind": "strings", "fit": fit, "items": items}
+    if rng.random() < 0.6:
+        # base_dictionary: phrase -> initial count (LZW style alphabets, longer phrases, characters that never occur,
+        # more entries than max_dict_size); the implementation side puts it in hashed key space when max_columns is set
+        kind = rng.choice(["alphabet", "phrases", "mixed"])
+        base = {}
+        if kind in ("alphabet", "mixed"):
+            for ch in (alpha if kind == "alphabet" else wide):
+                base[ch] = rng.choice([1, 1, 2])
+        if kind in ("phrases", "mixed"):
+            for _ in range(rng.randint(1, 4)):
+                base[rstring(rng, 1, 3, wide + "q")] = rng.choice([1, 3, 10])
+        if rng.random() < 0.3:
+            base[""] = rng.choice([1, 4])
+        c["base"] = [[k, v] for k, v in base.items()]
+    c["ops"] = make_ops(rng, len(items), singles=boundary(items, lambda s: len(s) <= 1))
+    return c
 
 
 def gen_bpe(rng):
     rt = rng.choice(["sequences", "tokens", "matrix"])
     alpha = rng.choice(["ab", "abc"])
-    # TODO widen after merge: contract_pair reads uninitialised memory once a string has collapsed to one code (D14,
-    # repaired elsewhere).  Every training string ends with its own sentinel character and every item with '#', which
-    # never take part in a merge (pairs must occur twice), so no encoding shrinks below two codes.
-    fit = [rstring(rng, 2, 12, alpha) + chr(0x100 + i) for i in range(rng.randint(3, 6))]
-    p = {"max_vocab_size": rng.choice([2, 4, 8, 50]), "min_token_occurrence": rng.choice([1, 2]), "return_type": rt}
-    if rt == "matrix":
-        # TODO widen after merge: 'matrix' output raises on unseen codes and infers its width (D5), and the last learned
-        # code is missing from the columns when training stops on max_vocab_size (D8): items are training strings,
-        # training runs until no pair occurs twice, and every sub-batch contains ALL training strings (pinned), which
-        # together carry every fitted column.
-        p["max_vocab_size"] = 50
-        items = list(fit) + [rng.choice(fit) for _ in range(rng.randint(1, 3))]
-        rng.shuffle(items)
-        pinned = tuple(sorted(items.index(s) for s in set(fit)))
-    else:
-        items = [rstring(rng, 1, 10, alpha + "zé") + "#" for _ in range(rng.randint(3, 6))]
-        pinned = ()
+    fit = [rstring(rng, 2, 12, alpha) for _ in range(rng.randint(3, 6))]
+    if rng.random() < 0.3:
+        fit.append(rstring(rng, 2, 5, alpha) + "\u00e9")
+    p = {"max_vocab_size": rng.choice([1, 2, 4, 8, 50]), "min_token_occurrence": rng.choice([1, 2]), "return_type": rt,
+         "max_char_code": rng.choice([0, 0, "ascii", 300])}
+    # any strings, for every return type: unseen codes, characters above max_char_code_, strings that collapse to a
+    # single code (powers of the learned tokens), empty and 1-character strings, training strings
+    wide = alpha + "z\u00e9\u0142\u4e2d"
+    items = []
+    for _ in range(rng.randint(3, 6)):
+        r = rng.random()
+        if r < 0.2:
+            items.append(rng.choice(fit))
+        elif r < 0.4:
+            items.append(rng.choice(alpha) * rng.choice([2, 4, 8]) if rng.random() < 0.5 else rstring(rng, 1, 2, alpha) * rng.choice([1, 2, 4]))
+        else:
+            items.append(rstring(rng, 0, 10, rng.choice([alpha, wide])))
+    items.append(rng.choice(["", rng.choice(wide), rng.choice(alpha) * 2]))
+    rng.shuffle(items)
     return {"est": "BPE", "params": p, "data_kind": "strings", "fit": fit, "items": items,
-            "ops": make_ops(rng, len(items), pinned=pinned)}
+            "ops": make_ops(rng, len(items), singles=boundary(items, lambda s: len(s) <= 1))}
+
+
+def gen_bpe_long(rng):
+    """a batch long enough for the parallel loop of bpe_encode_all to hand several items to every thread"""
+    c = gen_bpe(rng)
+    alpha = "abc"
+    c["items"] = [rstring(rng, 0, 9, alpha + "z") for _ in range(rng.choice([97, 128, 150]))]
+    c["ops"] = make_long_ops(rng, len(c["items"]))
+    c["long"] = True
+    return c
 
 
 def nums(rng, lo, hi, k):
@@ -145,7 +211,8 @@ def gen_kde(rng):
     fit = [nums(rng, 0, 10, rng.randint(2, 6)) for _ in range(3)] + [[0.0, 10.0]]
     items = [nums(rng, -3, 13, rng.randint(1, 7)) for _ in range(rng.randint(3, 6))]
     p = {"bandwidth": rng.choice([0.3, 1.0, 2.0]), "n_components": rng.choice([3, 6]),
-         "evaluation_grid_strategy": rng.choice(["uniform", "density"])}
+         "evaluation_grid_strategy": rng.choice(["uniform", "density"]),
+         "kernel": rng.choice(["gaussian", "gaussian", "exponential", "tophat"])}
     return {"est": "KDE", "params": p, "data_kind": "numarrays", "fit": fit, "items": items,
             "ops": make_ops(rng, len(items))}
 
@@ -182,14 +249,25 @@ WASS_COMBOS = [("LOT_exact", "spmatrix"), ("LOT_exact", "lil"), ("LOT_exact", "g
 _wass_counter = [0]
 
 
-def gen_wasserstein(rng):
-    method, inp = WASS_COMBOS[_wass_counter[0] % len(WASS_COMBOS)]     # every (method, input_method) in turn
-    _wass_counter[0] += 1
+def lil_data(rng, n, d, lo, hi):
+    sizes = [rng.randint(lo, hi) for _ in range(n)]
+    return [[round(rng.random() + 0.05, 3) for _ in range(s)] for s in sizes], [vecs(rng, s, d) for s in sizes]
+
+
+def gen_wasserstein(rng, combo=None, long_n=None, metric=None):
+    if combo is None:
+        combo = WASS_COMBOS[_wass_counter[0] % len(WASS_COMBOS)]       # every (method, input_method) in turn
+        _wass_counter[0] += 1
+    method, inp = combo
     v, d = rng.choice([5, 7]), rng.choice([2, 3])
-    metric = rng.choice(["euclidean", "cosine"])
+    metric = metric or rng.choice(["euclidean", "cosine"])
     p = {"method": method, "input_method": inp, "n_components": 3, "reference_size": rng.choice([3, 4]),
          "metric": metric, "random_state": 0}
-    n = rng.randint(4, 6)
+    if method == "LOT_exact" and rng.random() < 0.4:
+        p["max_distribution_size"] = rng.choice([2, 3])             # larger supports are truncated, row by row
+    n = long_n or rng.randint(4, 6)
+    if long_n:
+        v, d = rng.choice([5, 6]), 2
     c = {"est": "Wasserstein", "params": p, "data_kind": inp}
     if inp == "spmatrix":
         c["vectors"] = vecs(rng, v, d)
@@ -200,28 +278,41 @@ def gen_wasserstein(rng):
             p["generator_vector_dim"] = d
             p["generator_n_distributions"] = 8
             c["reference_vectors"] = vecs(rng, p["reference_size"], d)
-        # input_method='lil' with a non-cosine metric stacks the per-item vector arrays with np.ascontiguousarray and
-        # raises on supports of different sizes (outside C12; reported): equal sizes there
-        same = inp == "lil" and metric != "cosine"
-        s0 = rng.randint(2, 5)
-        sizes = [s0 if same else rng.randint(2, 5) for _ in range(8)]
-        c["fit"] = [[round(rng.random() + 0.05, 3) for _ in range(s)] for s in sizes]
-        c["fit_vectors"] = [vecs(rng, s, d) for s in sizes]
-        sizes = [s0 if same else rng.randint(1, 5) for _ in range(n)]
-        c["items"] = [[round(rng.random() + 0.05, 3) for _ in range(s)] for s in sizes]
-        c["item_vectors"] = [vecs(rng, s, d) for s in sizes]
-    c["ops"] = make_ops(rng, n, blocks=(method != "HeuristicLinearAlgebra"), chunks=(method == "LOT_sinkhorn"))
+        # supports of different sizes, for every metric
+        c["fit"], c["fit_vectors"] = lil_data(rng, 8, d, 2, 5)
+        c["items"], c["item_vectors"] = lil_data(rng, n, d, 1, 5)
+    if long_n:
+        c["long"] = True
+        c["ops"] = make_long_ops(rng, n, lot=(method != "HeuristicLinearAlgebra"),
+                                 chunk=(rng.choice([32, 7]) if method == "LOT_sinkhorn" else None))
+        if method == "LOT_exact" and inp in ("spmatrix", "lil"):
+            # correspondence of the kernels' own chunk loop: the raw kernel is re-run on the whole batch with these
+            # chunk sizes and the rows it writes are compared with Model.kernel_written
+            c["probe_chunks"] = sorted(set([1, 7, 255, 256, 257, n - 1, n, n + 1, rng.randint(2, n)]))
+    else:
+        c["ops"] = make_ops(rng, n, blocks=(method != "HeuristicLinearAlgebra"), chunks=(method == "LOT_sinkhorn"))
     return c
 
 
-def gen_sinkhorn(rng):
+def long_sizes(rng):
+    """more than one chunk of 256 rows in one block: just above the chunk size, in the middle, on / around a multiple"""
+    return rng.choice([257, 258, 300, 511, 512, 513])
+
+
+def gen_sinkhorn(rng, long_n=None):
     v, d = rng.choice([5, 7]), rng.choice([2, 3])
-    n = rng.randint(4, 6)
+    n = long_n or rng.randint(4, 6)
     p = {"n_components": 3, "reference_size": rng.choice([3, 4]), "metric": rng.choice(["euclidean", "cosine"]),
          "random_state": 0}
-    return {"est": "Sinkhorn", "params": p, "data_kind": "spmatrix", "vectors": vecs(rng, v, d),
-            "fit": dist_matrix(rng, 8, v), "items": dist_matrix(rng, n, v),
-            "ops": make_ops(rng, n, blocks=True, chunks=True)}
+    c = {"est": "Sinkhorn", "params": p, "data_kind": "spmatrix", "vectors": vecs(rng, v, d),
+         "fit": dist_matrix(rng, 8, v), "items": dist_matrix(rng, n, v)}
+    if long_n:
+        c["long"] = True
+        c["ops"] = make_long_ops(rng, n, lot=False, chunk=rng.choice([32, 32, 13]))
+        c["ops"] += [{"tag": "block", "idx": list(range(n)), "block": b, "chunk": 32} for b in (33, n - 1)]
+    else:
+        c["ops"] = make_ops(rng, n, blocks=True, chunks=True)
+    return c
 
 
 def gen_approx(rng):
@@ -246,9 +337,13 @@ def gen_infoweight(rng):
     f = rng.choice([4, 6])
     fit = count_matrix(rng, 8, f) + [[1.0] * f]
     n = rng.randint(3, 6)
-    p = {"approx_prior": rng.random() < 0.5, "weight_power": rng.choice([1.0, 2.0])}
-    return {"est": "InfoWeight", "params": p, "data_kind": "counts", "fit": fit,
-            "items": count_matrix(rng, n, f, allow_empty=True), "ops": make_ops(rng, n)}
+    p = {"approx_prior": rng.random() < 0.5, "weight_power": rng.choice([1.0, 2.0]),
+         "prior_strength": rng.choice([1e-4, 0.1])}
+    c = {"est": "InfoWeight", "params": p, "data_kind": "counts", "fit": fit,
+         "items": count_matrix(rng, n, f, allow_empty=True), "ops": make_ops(rng, n)}
+    if rng.random() < 0.4:
+        c["y"] = [i % 3 for i in range(len(fit))]          # supervised weights (fit(X, y))
+    return c
 
 
 def gen_rowdenoise(rng):
@@ -256,6 +351,9 @@ def gen_rowdenoise(rng):
     fit = count_matrix(rng, 8, f) + [[1.0] * f]
     n = rng.randint(3, 6)
     p = {"normalize": rng.random() < 0.5}
+    if rng.random() < 0.5:
+        p.update({"em_background_prior": rng.choice([1.0, 5.0]), "em_prior_strength": rng.choice([0.3, 0.5, 0.0]),
+                  "em_threshold": rng.choice([1e-8, 1e-5, 0.05]), "em_precision": rng.choice([1e-7, 1e-4])})
     return {"est": "RowDenoise", "params": p, "data_kind": "counts", "fit": fit,
             "items": count_matrix(rng, n, f), "ops": make_ops(rng, n)}
 
@@ -264,9 +362,11 @@ def gen_cfc(rng):
     f = rng.choice([5, 6])
     fit = count_matrix(rng, 10, f) + [[1.0] * f]
     n = rng.randint(3, 6)
-    p = {"n_components": 2, "random_state": 0, "rescaling_power": rng.choice([0.5, 1.0])}
+    # n_components >= n_features: the fitted model is the identity (no compression learned)
+    p = {"n_components": rng.choice([2, 2, 3, f]), "random_state": 0, "rescaling_power": rng.choice([0.5, 1.0]),
+         "algorithm": rng.choice(["randomized", "arpack"])}
     return {"est": "CFC", "params": p, "data_kind": "counts", "fit": fit,
-            "items": count_matrix(rng, n, f), "ops": make_ops(rng, n)}
+            "items": count_matrix(rng, n, f), "ops": make_ops(rng, n, singles=[0])}
 
 
 def gen_sliding(rng):
@@ -275,8 +375,17 @@ def gen_sliding(rng):
     p = {"window_width": w, "window_stride": rng.randint(1, 3)}
     if rng.random() < 0.3:
         p["pad_width"], p["pad_value"] = 1, 0
+    r = rng.random()
+    if r < 0.2 and w >= 2:
+        p["window_sample"] = 2                                              # every 2nd entry of the window
+    elif r < 0.35 and w >= 2:
+        p["window_sample"] = {"pair": [1, 1]}                               # (start, stride)
+    elif r < 0.5:
+        p["window_sample"] = sorted(rng.sample(range(w), rng.randint(1, w)), reverse=rng.random() < 0.5)
+    if rng.random() < 0.4:
+        p["kernels"] = [rng.choice(["average", ["gaussian_weight", 1.0]])]
     return {"est": "SlidingWindow", "params": p, "data_kind": "numarrays", "fit": items[:2], "items": items,
-            "ops": make_ops(rng, len(items))}
+            "ops": make_ops(rng, len(items), singles=boundary(items, lambda x: len(x) == w))}
 
 
 def sinkhorn_far_case(est):
@@ -298,8 +407,31 @@ CORPUS = [sinkhorn_far_case("Sinkhorn"), sinkhorn_far_case("Wasserstein")]
 
 GENS = [gen_ngram, gen_skipgram, gen_lz, gen_bpe, gen_hist, gen_kde, gen_distribution, gen_wasserstein, gen_sinkhorn,
         gen_approx, gen_infoweight, gen_rowdenoise, gen_cfc, gen_sliding]
-QUICK = {"Ngram": 4, "Skipgram": 3, "LZ": 5, "BPE": 6, "Histogram": 4, "KDE": 3, "Distribution": 3, "Wasserstein": 5,
-         "Sinkhorn": 2, "ApproxWasserstein": 2, "InfoWeight": 3, "RowDenoise": 3, "CFC": 2, "SlidingWindow": 3}
+QUICK = {"Ngram": 4, "Skipgram": 4, "LZ": 6, "BPE": 6, "Histogram": 3, "KDE": 3, "Distribution": 2, "Wasserstein": 5,
+         "Sinkhorn": 2, "ApproxWasserstein": 2, "InfoWeight": 3, "RowDenoise": 3, "CFC": 3, "SlidingWindow": 4}
+LOT_ESTS = ("Wasserstein", "Sinkhorn", "ApproxWasserstein")
+
+
+def long_cases(rng, quick):
+    """at least one long batch per run for every input path of the LOT family (+ the parallel BPE loop).  The lil
+    path converts the batch with typed-list extends of tuples whose compilation time grows quadratically with the
+    tuple length (~15 s for 270 items, ~60 s for 512): its sizes are even (both halves compile once) and, in the
+    quick tier, stay below 512; the thorough tier also crosses the 512-item conversion loop of the lil path."""
+    cs = [gen_wasserstein(rng, ("LOT_exact", "spmatrix"), long_sizes(rng)),
+          # generator input with metric='cosine' hands the kernel a TUPLE of normalised arrays: numba compiles the whole
+          # kernel once per distinct chunk length (~10 s each), so the quick tier's long generator batch is euclidean
+          gen_wasserstein(rng, ("LOT_exact", "generator"), long_sizes(rng), metric="euclidean" if quick else None),
+          gen_wasserstein(rng, ("LOT_exact", "lil"), rng.choice([258, 270, 300])),
+          gen_wasserstein(rng, ("LOT_sinkhorn", "spmatrix"), rng.choice([65, 70, 97])),
+          gen_sinkhorn(rng, rng.choice([65, 70, 97])),
+          gen_bpe_long(rng)]
+    if not quick:
+        cs += [gen_wasserstein(rng, ("LOT_exact", "spmatrix"), n) for n in (257, 512, 513, 700)]
+        cs += [gen_wasserstein(rng, ("LOT_exact", "generator"), n) for n in (256, 512, 600)]
+        # the two metrics take different conversion loops in the lil path (same compiled extends)
+        cs += [gen_wasserstein(rng, ("LOT_exact", "lil"), 514, metric=m) for m in ("euclidean", "cosine")]
+        cs += [gen_bpe_long(rng)]
+    return cs
 
 
 # ------------------------------------------------------------------ oracle
@@ -381,7 +513,10 @@ def py_chunks(c, bs, be):
 
 
 def run(ctx, replay=None):
+    import time
+    t_start = time.time()
     C.run_gate(ctx)
+    t_gate = time.time()
     if replay:
         cases = [replay["case"]]
     else:
@@ -393,75 +528,104 @@ def run(ctx, replay=None):
             cases.append(c0)
             for _ in range(QUICK[c0["est"]] * mult - 1):
                 cases.append(g(ctx.rng))
-    ctx.coverage["rule"] = ("for each of the 14 row-wise estimators: random small fitted model + batch; sub-batches A, B "
-                            "(A+B = batch), a permutation, a duplicated item, a singleton, and the whole batch under "
-                            "block/chunk sizes {1,2,3,n-1,n,n+1} (memory_size / sinkhorn_chunk_size / chunk_size), each "
-                            "under NUMBA_NUM_THREADS=1 and 16; non-trivial = batch of >= 3 items; distinct by case hash")
+        cases += long_cases(ctx.rng, ctx.quick)
+    ctx.coverage["rule"] = ("for each of the 14 row-wise estimators: random small fitted model + batch (any items: unseen tokens / "
+                            "phrases / codes / characters, empty and 1-element items, items without output entries); "
+                            "sub-batches A, B (A+B = batch), a permutation, a duplicated item, singletons (a random one and the "
+                            "boundary items), and the whole batch under block/chunk sizes {1,2,3,n-1,n,n+1} (memory_size / "
+                            "sinkhorn_chunk_size / chunk_size); long batches (> 256 rows in one block of the LOT kernels, "
+                            "> 2 Sinkhorn chunks, ~100 strings for the parallel BPE loop) against their halves, a permutation "
+                            "and block sizes 256 / 257..n-1 / n / default; each under NUMBA_NUM_THREADS=1 and (a third of the "
+                            "cases) 16; non-trivial = batch of >= 3 items; distinct by case hash")
     ctx.assumptions += ["count outputs compared exactly; numeric outputs at |a-b| <= 1e-6*max(|a|,|b|) + 1e-6*max|output|",
-                        "generator restrictions while other repairs are pending (TODO widen after merge): LZ and BPE 'matrix' "
-                        "items are training strings, Skipgram / BPE 'matrix' sub-batches contain the item(s) carrying the "
-                        "highest fitted column, Ngram without mask_string, BPE strings of length >= 2",
+                        "with max_columns set the LZ base_dictionary is given in hashed key space (keys hashed by the harness "
+                        "with the library's murmurhash and the seed the estimator derives from random_state)",
+                        "a block size larger than the batch is passed to the model as n+1 (C12_blocks_larger)",
+                        "quick tier: the 512-item conversion loop of WassersteinVectorizer input_method='lil' is not crossed "
+                        "(numba needs ~2 min to compile the 512-tuple extends); the thorough tier crosses it",
                         "thread schedules are not modelled; what is run is NUMBA_NUM_THREADS in {1, 16}"]
     from concurrent.futures import ThreadPoolExecutor
-    # the 16-thread run is slow on tiny inputs (thread launch per prange): it gets every third case of each estimator
-    # (every Wasserstein (method, input_method) combination) and, of the block / chunk variants, every third one
+    # three children: NUMBA_NUM_THREADS=1 for the LOT family and for the other estimators, and a 16-thread run that is
+    # slow on tiny inputs (thread launch per prange): it gets every third small case of each estimator, every small
+    # Wasserstein (method, input_method) combination, of the block / chunk variants every third one, and the long
+    # batches except the LOT_exact ones (their kernels are sequential but start one tiny parallel region per row)
     seen, in16 = {}, []
     for c in cases:
+        if c.get("long"):
+            in16.append(c["params"].get("method", "") != "LOT_exact")
+            continue
         seen[c["est"]] = seen.get(c["est"], 0) + 1
-        in16.append(seen[c["est"]] % 3 == 1 or c["est"] == "Wasserstein")      # every third case; all Wasserstein combos
-    cases16 = [trim16(c) for c, k in zip(cases, in16) if k]
-    pos16 = {i: j for j, i in enumerate(i for i, k in enumerate(in16) if k)}
-    with ThreadPoolExecutor(max_workers=3) as ex:
-        # common.run_impl names its files by pid + millisecond and its numba cache by pid: two children started from
-        # one process need distinct start times and distinct cache directories
-        import os, time
-        cache = os.path.join(C.WORK, "numba_cache_c12_%d_" % os.getpid())
-        f1 = ex.submit(C.run_impl, "c12", cases, {"NUMBA_NUM_THREADS": "1", "NUMBA_CACHE_DIR": C.os_makedirs(cache + "t1")})
-        time.sleep(0.2)
-        f16 = ex.submit(C.run_impl, "c12", cases16, {"NUMBA_NUM_THREADS": "16", "NUMBA_CACHE_DIR": C.os_makedirs(cache + "t16")})
-        (r1, info1), (r16, info16) = f1.result(), f16.result()
-    results = {}
-    ctx.coverage["modes"] = {"NUMBA_NUM_THREADS=1": {"wall_s": info1["wall_s"], "ops": sum(len(c["ops"]) for c in cases)},
-                             "NUMBA_NUM_THREADS=16": {"wall_s": info16["wall_s"], "ops": sum(len(c["ops"]) for c in cases16)}}
-    case_sets = {"1": cases, "16": cases16}
-    for tag, res, info in (("1", r1, info1), ("16", r16, info16)):
-        cs = case_sets[tag]
+        in16.append(seen[c["est"]] % 3 == 1 or c["est"] == "Wasserstein")
+    groups = {"1:lot": [i for i, c in enumerate(cases) if c["est"] in LOT_ESTS],
+              "1:other": [i for i, c in enumerate(cases) if c["est"] not in LOT_ESTS],
+              "16": [i for i, k in enumerate(in16) if k]}
+    groups = {g: ix for g, ix in groups.items() if ix}
+    payload = {g: [trim16(cases[i]) if g == "16" else cases[i] for i in ix] for g, ix in groups.items()}
+    with ThreadPoolExecutor(max_workers=len(groups)) as ex:
+        futs = {g: ex.submit(C.run_impl, "c12", payload[g], {"NUMBA_NUM_THREADS": g.split(":")[0]}) for g in groups}
+        raw = {g: f.result() for g, f in futs.items()}
+    t_impl = time.time()
+    ctx.coverage["modes"] = {"NUMBA_NUM_THREADS=" + g: {"wall_s": raw[g][1]["wall_s"], "cases": len(groups[g]),
+                                                        "ops": sum(len(c["ops"]) for c in payload[g])} for g in groups}
+    results = {"1": {}, "16": {}}                    # thread setting -> case index -> (case as run, result)
+    for g, ix in groups.items():
+        res, info = raw[g]
+        cs = payload[g]
         if res is None or len(res) != len(cs):
             done = len(res) if res else 0
             ctx.report("implementation child (NUMBA_NUM_THREADS=%s) died (rc=%s) on case %d: %s"
-                       % (tag, info["rc"], done, info["tail"][-400:]),
-                       {"stage": "impl-crash", "case": cs[done] if done < len(cs) else None, "threads": tag},
+                       % (g, info["rc"], done, info["tail"][-400:]),
+                       {"stage": "impl-crash", "case": cs[done] if done < len(cs) else None, "threads": g},
                        found_input=True)
             res = (res or []) + [{"err": "crash"}] * (len(cs) - done)
-        results[tag] = res
+        for i, cc, r in zip(ix, cs, res):
+            results[g.split(":")[0]][i] = (cc, r)
     n_oracle = 0
+    per_est, failing = {}, {}
     for i, c in enumerate(cases):
-        ctx.count_case({k: c[k] for k in ("est", "params", "items")}, nontrivial=len(c["items"]) >= 3,
-                       kind="%s:%s" % (c["est"], c["params"].get("method", c["params"].get("return_type", c["data_kind"]))))
+        kind = "%s:%s" % (c["est"], c["params"].get("method", c["params"].get("return_type", c["data_kind"])))
+        if c["est"] == "Wasserstein":
+            kind += ":" + c["data_kind"]
+        if c.get("long"):
+            kind += ":long"
+        if c["est"] == "LZ":
+            kind += (":base" if c.get("base") else "") + (":hashed" if c["params"]["max_columns"] else "")
+        ctx.count_case({k: c[k] for k in ("est", "params", "items")}, nontrivial=len(c["items"]) >= 3, kind=kind)
         for tag in ("1", "16"):
-            if tag == "16" and i not in pos16:
+            if i not in results[tag]:
                 continue
-            r = results[tag][i if tag == "1" else pos16[i]]
-            cc = c if tag == "1" else cases16[pos16[i]]
+            cc, r = results[tag][i]
             if "ok" not in r:
                 if r.get("err") != "crash":
                     ctx.report("%s: fit raised %s: %s (NUMBA_NUM_THREADS=%s)" % (c["est"], r.get("err"), r.get("msg"), tag),
                                {"stage": "oracle", "case": c, "actual": r, "threads": tag}, found_input=True)
                 continue
             n_oracle += 1
+            if tag == "1":
+                t = per_est.setdefault(c["est"], [0, 0.0])
+                t[0] += 1
+                t[1] += r["t"][1]
             ref = None
-            if tag == "16" and "ok" in results["1"][i] and c["est"] in CROSS_RUN:
-                ref = results["1"][i]["ok"][0]
+            if tag == "16" and i in results["1"] and "ok" in results["1"][i][1] and c["est"] in CROSS_RUN:
+                ref = results["1"][i][1]["ok"][0]
             bad = check_case(cc, r["ok"], ref)
             for msg, op in bad[:1]:
                 key = finding_key(c, op)
+                if key is None:
+                    failing[kind] = failing.get(kind, 0) + 1           # ctx.report keeps the first five replays only
                 ctx.report(msg + " (NUMBA_NUM_THREADS=%s)" % tag,
                            {"stage": "oracle", "case": c, "op": op, "threads": tag}, found_input=True, finding_key=key)
-    model_bad = model_eval(cases, results["1"])
-    ctx.coverage["oracle"] = {"cases": n_oracle, "ops": sum(len(c["ops"]) for c in cases) + sum(len(c["ops"]) for c in cases16)}
+    t_oracle = time.time()
+    one = [results["1"].get(i, (None, {}))[1] for i in range(len(cases))]
+    model_bad = model_eval(cases, one)
+    ctx.coverage["oracle"] = {"cases": n_oracle, "ops": sum(len(c["ops"]) for g in payload for c in payload[g]),
+                              "failing_cases_by_kind": failing}
     ctx.coverage["correspondence"] = {"cases": model_bad[1], "disagreements": len(model_bad[0]),
-                                      "model": "Model/K19_RowWise.v via vm_compute"}
+                                      "model": "Model/K19_RowWise.v via vm_compute", "by_kind": model_bad[2]}
     ctx.coverage["traces_validated_against_impl"] = model_bad[1]
+    ctx.coverage["timing_s"] = {"gate": round(t_gate - t_start, 1), "implementation": round(t_impl - t_gate, 1),
+                                "oracle": round(t_oracle - t_impl, 1), "model": round(time.time() - t_oracle, 1),
+                                "per_estimator_1thread": {k: [v[0], round(v[1], 1)] for k, v in per_est.items()}}
     if model_bad[0] and not any(v["found_input"] for v in ctx.violations):
         what, detail = model_bad[0][0]
         ctx.report("model K19_RowWise and implementation disagree (no property-level failure found): " + what,
@@ -500,15 +664,28 @@ def coq_zl(xs):
     return "[" + "; ".join("(%d)%%Z" % x for x in xs) + "]"
 
 
+def coq_str(st):
+    return coq_zl([ord(ch) for ch in st])
+
+
+def lot_chunk_size(b):
+    """chunk_size = max(256, block_size // 64) of the LOT_exact paths"""
+    return max(256, b // 64)
+
+
 def model_eval(cases, results):
     """Correspondence of Model/K19_RowWise.v: (1) sizes of the successive per-block / per-chunk kernel calls of the
-    LOT family vs block_sizes / chunk_sizes, (2) unhashed LZ rows vs csr_rows (lz_transform ...), (3) BPE
-    'sequences' vs map bpe_encode.  Returns (disagreements, number of compared observations)."""
+    LOT family vs block_sizes / chunk_sizes, (2) rows written by the chunk loop inside the LOT kernels for a range of
+    chunk sizes vs kernel_written, (3) LZ rows (phrase keys, or hashed keys with the hash given as a table; with and
+    without base dictionary) vs csr_rows (lz_transform ...), (4) BPE 'sequences' vs map bpe_encode.
+    Returns (disagreements, number of compared observations, observations by kind)."""
     exprs, checks = [], []
     for c, r in zip(cases, results):
         if "ok" not in r:
             continue
         outs = r["ok"]
+        if c["est"] in ("LZ", "BPE") and "rows" not in outs[0]:
+            continue                                         # the whole batch raised: reported by the oracle
         if c["est"] in ("Wasserstein", "Sinkhorn"):
             method = c["params"].get("method", "LOT_sinkhorn")
             if method == "HeuristicLinearAlgebra":
@@ -517,32 +694,47 @@ def model_eval(cases, results):
                 if "calls" not in o:
                     continue
                 n, b = len(op["idx"]), o["b"]
+                bm = min(b, n + 1)                           # blocks b n = [(0, n)] for every b > n (C12_blocks_larger)
                 if method == "LOT_sinkhorn":
-                    exprs.append("chunk_sizes %d%%nat %d%%nat %d%%nat" % (b, o["c"], n))
-                    want = o["calls"]
+                    exprs.append("chunk_sizes %d%%nat %d%%nat %d%%nat" % (bm, min(o["c"], n + 1), n))
+                    checks.append((c, "kernel call sizes (op %s)" % op["tag"], o["calls"], "eq", "sinkhorn chunk calls"))
+                elif c["data_kind"] == "generator":
+                    # the generator path feeds the kernel chunk by chunk and skips empty blocks / chunks
+                    exprs.append("chunk_sizes %d%%nat %d%%nat %d%%nat" % (bm, min(lot_chunk_size(b), n + 1), n))
+                    checks.append((c, "kernel call sizes (op %s)" % op["tag"], o["calls"], "nonzero", "generator chunk calls"))
                 else:
-                    exprs.append("block_sizes %d%%nat %d%%nat" % (b, n))
-                    # the generator path skips empty blocks; the spmatrix / lil paths call the kernel on them
-                    want = o["calls"]
-                    if c["data_kind"] == "generator":
-                        checks.append((c, "kernel call sizes (op %s)" % op["tag"], want, "nonzero"))
-                        continue
-                checks.append((c, "kernel call sizes (op %s)" % op["tag"], want, "eq"))
-        elif c["est"] == "LZ" and not r["extra"].get("hashed", True):
-            cd = "[" + "; ".join("(%s, (%d)%%Z)" % (coq_zl(k), v) for k, v in r["extra"]["coldict"]) + "]"
-            X = "[" + "; ".join(coq_zl([ord(ch) for ch in c["items"][i]]) for i in c["ops"][0]["idx"]) + "]"
+                    exprs.append("block_sizes %d%%nat %d%%nat" % (bm, n))
+                    checks.append((c, "kernel call sizes (op %s)" % op["tag"], o["calls"], "eq", "block calls"))
+            for cs, n, written in r.get("extra", {}).get("kernel_written", []):
+                exprs.append("kernel_written %d%%nat %d%%nat" % (cs, n))
+                checks.append((c, "rows written by the kernel's chunk loop (chunk_size=%d, %d rows)" % (cs, n), written,
+                               "eq", "kernel chunk loop"))
+        elif c["est"] == "LZ":
+            ex = r["extra"]
             ms = min(c["params"]["max_dict_size"], 1000)     # strings are far shorter: the cap value itself is irrelevant above
-            exprs.append("csr_rows (lz_transform (list Z) list_eqb (fun p => p) %s [] %d%%nat %s)" % (cd, ms, X))
+            X = "[" + "; ".join(coq_str(c["items"][i]) for i in c["ops"][0]["idx"]) + "]"
+            if not ex["hashed"]:
+                cd = "[" + "; ".join("(%s, (%d)%%Z)" % (coq_zl(k), v) for k, v in ex["coldict"]) + "]"
+                base = "[" + "; ".join("(%s, (%d)%%Z)" % (coq_zl(k), v) for k, v in ex["base"]) + "]"
+                exprs.append("csr_rows (lz_transform (list Z) list_eqb (fun p => p) %s %s %d%%nat %s)" % (cd, base, ms, X))
+            elif ex.get("hashes") is not None:
+                tbl = "[" + "; ".join("(%s, (%d)%%Z)" % (coq_zl(k), v) for k, v in ex["hashes"]) + "]"
+                cd = "[" + "; ".join("((%d)%%Z, (%d)%%Z)" % (k, v) for k, v in ex["coldict"]) + "]"
+                base = "[" + "; ".join("((%d)%%Z, (%d)%%Z)" % (k, v) for k, v in ex["base"]) + "]"
+                exprs.append("csr_rows (lz_transform Z Z.eqb (table_hash %s) %s %s %d%%nat %s)" % (tbl, cd, base, ms, X))
+            else:
+                continue
             rows = [sorted([j, int(v)] for j, v in enumerate(row) if v != 0) for row in outs[0]["rows"]]
-            checks.append((c, "LZ rows", rows, "lz"))
-        elif c["est"] == "BPE" and c["params"]["return_type"] == "sequences":
+            checks.append((c, "LZ rows", rows, "lz", "LZ rows%s%s" % (" hashed" if ex["hashed"] else "", " base" if c.get("base") else "")))
+        elif c["est"] == "BPE" and c["params"]["return_type"] == "sequences" and not c.get("long"):
             cl = "[" + "; ".join("((%d)%%Z, (%d)%%Z)" % (a, b) for a, b in r["extra"]["code_list"]) + "]"
-            X = "[" + "; ".join(coq_zl([ord(ch) for ch in c["items"][i]]) for i in c["ops"][0]["idx"]) + "]"
+            X = "[" + "; ".join(coq_str(c["items"][i]) for i in c["ops"][0]["idx"]) + "]"
             exprs.append("map (bpe_encode %s (%d)%%Z) %s" % (cl, r["extra"]["mcc"], X))
-            checks.append((c, "BPE sequences", outs[0]["rows"], "eq"))
-    vals = C.coq_eval_sharded("C12", HEADER, exprs, shard=120)
-    bad = []
-    for (c, what, want, mode), got in zip(checks, vals):
+            checks.append((c, "BPE sequences", outs[0]["rows"], "eq", "BPE sequences"))
+    vals = C.coq_eval_sharded("C12", HEADER, exprs, shard=60)
+    bad, kinds = [], {}
+    for (c, what, want, mode, kind), got in zip(checks, vals):
+        kinds[kind] = kinds.get(kind, 0) + 1
         if mode == "nonzero":
             got = [x for x in got if x != 0]
             want = [x for x in want if x != 0]
@@ -551,4 +743,4 @@ def model_eval(cases, results):
         if got != want:
             bad.append(("%s %s: implementation %s, model %s" % (c["est"], what, str(want)[:200], str(got)[:200]),
                         {"case": c, "impl": want, "model": got}))
-    return bad, len(checks)
+    return bad, len(checks), kinds
